@@ -52,6 +52,14 @@ def gen(rnd, tier):
         dcases.append({"b": b + rnd.choice([[], [77], [109], [59, 49, 77]]), "more": rnd.random() < 0.3, "tag": "sgr-malformed"})
         b = [27, 91, 77] + [rnd.randrange(256) for _ in range(rnd.randint(0, 4))]
         dcases.append({"b": b, "more": rnd.random() < 0.3, "tag": "x10-short-or-odd"})
+    # a report cut at every position by the end of a full 256-byte read (short and long SGR reports, X10 reports)
+    for e in [("sgr", 0, 1, 1, False), ("sgr", 35, 120, 40, False), ("sgr", 64, 223, 223, True), ("sgr", 130, 9999, 5000, False), ("x10", 0, 1, 1), ("x10", 35, 200, 100)]:
+        eb = D.encode(e)
+        for cut in range(1, len(eb)):
+            pre = 256 - cut
+            evs = [("runes", [97 + (k % 26) for k in range(pre - 1)]), ("ctl", 13, False), e, ("ctl", 9, False), ("runes", [122])]
+            if all(D.clean(evs[j], [b for x in evs[j + 1:] for b in D.encode(x)]) for j in range(len(evs))):
+                cases.append(D.stream_case(evs, tag="report-across-reads"))
     return cases, dcases
 
 
